@@ -29,6 +29,16 @@ Example C02_object_property_example :
   reify_e en 0 e = Accessor 7 (ObjRef KSprite "add" 7 (Binary "add" 4 (Leaf KLocal "i" 0 true) (Leaf KConst "1" 2 true))) "height".
 Proof. split; [cbn; repeat split; lia | split; vm_compute; reflexivity]. Qed.
 
+(* ... and  EMenu pid item menu  ( the <property> of menuItem <item> of menu <menu> , opcode 5C 03): the item is compiled
+   first, then the menu; the tree names the menu first *)
+Example C02_menu_item_property_example :
+  let en := Build_env [] [] [Leaf KLocal "i" 0 true] [] [] in
+  let e := EMenu 3 (EInt 2) (EBin Add (ELoc 0) (EInt 1)) in          (* the enabled of menuItem 2 of menu (i + 1) *)
+  wf_e en e /\
+  reify_e en 0 e = Accessor 9 (MenuItemAcc 9 (ObjRef KMenu "add" 9 (Binary "add" 6 (Leaf KLocal "i" 0 true) (Leaf KConst "1" 4 true)))
+                                             (ObjRef KMenuItem "2" 9 (Leaf KConst "2" 0 true))) "enabled".
+Proof. split; [cbn; repeat split; lia | vm_compute; reflexivity]. Qed.
+
 Theorem C02_expression_whole :
   forall en e d off fuel r m,
     wf_e en e -> agrees en m -> code_at d off (compile_e e) ->
